@@ -85,8 +85,6 @@ fn vp_all_spaces(b: &[u8], from: usize) -> (r: bool)
 /// UTF-8 encoding of a char sequence (uninterpreted; only the two facts below are assumed)
 pub uninterp spec fn utf8(s: Seq<char>) -> Seq<u8>;
 
-/// O7 result: s with trailing ' ' / '\t' removed from every line (uninterpreted)
-uninterp spec fn strip_tw(s: Seq<char>, newline: Seq<char>) -> Seq<char>;
 
 pub assume_specification[ String::len ](s: &String) -> (r: usize)
     ensures r == utf8(s@).len(),
@@ -669,7 +667,7 @@ spec fn frame_post(frame: Frame<'_>, o: RenderOpts, s0: State, s1: State, k0: Se
 pub closed spec fn rendered_ok(r: Rendered, o: RenderOpts) -> bool {
     exists|raw: Seq<char>, offs: Seq<nat>|
         #![trigger vp_witness(raw, offs)]
-        vp_witness(raw, offs) && anchors_hold(raw, offs, r.anchors@) && r.text@ == (if o.strip_trailing_whitespace { strip_tw(raw, o.newline@) } else { raw })
+        vp_witness(raw, offs) && anchors_hold(raw, offs, r.anchors@) && (if o.strip_trailing_whitespace { is_strip_tw(r.text@, raw, o.newline@) } else { r.text@ == raw })
 }
 
 /// names the witness (unstripped output, anchor offsets) of rendered_ok
@@ -728,7 +726,7 @@ proof fn lemma_rendered_sorted(r: Rendered, o: RenderOpts)
     ensures anchors_1based_sorted(r.anchors@),
 {
     let (raw, offs) = choose|raw: Seq<char>, offs: Seq<nat>| #![trigger vp_witness(raw, offs)]
-        vp_witness(raw, offs) && anchors_hold(raw, offs, r.anchors@) && r.text@ == (if o.strip_trailing_whitespace { strip_tw(raw, o.newline@) } else { raw });
+        vp_witness(raw, offs) && anchors_hold(raw, offs, r.anchors@) && (if o.strip_trailing_whitespace { is_strip_tw(r.text@, raw, o.newline@) } else { r.text@ == raw });
     let an = r.anchors@;
     assert forall|i: int, j: int| 0 <= i <= j < an.len() implies lex_le(an[i].dst_line, an[i].dst_column, an[j].dst_line, an[j].dst_column) by {
         assert(anchor_ok(raw, offs[i], an[i]));
@@ -741,4 +739,152 @@ proof fn lemma_rendered_sorted(r: Rendered, o: RenderOpts)
     }) by {
         assert(anchor_ok(raw, offs[i], an[i]));
     }
+}
+
+
+// =================================================================================================
+// C28 content clause, final pass: strip_trailing_whitespace (its real loop is verified; only the two std calls
+// `s.split(newline).enumerate()` (O10) and `line.trim_end_matches([' ', '\t'])` (O11) are outlined)
+// =================================================================================================
+spec fn is_blank(c: char) -> bool {
+    c == ' ' || c == '\t'
+}
+
+/// s without its trailing ' ' / '\t' chars (nothing else is ever removed)
+spec fn trim_blank(s: Seq<char>) -> Seq<char>
+    decreases s.len(),
+{
+    if s.len() > 0 && is_blank(s.last()) { trim_blank(s.drop_last()) } else { s }
+}
+
+spec fn contains_at(s: Seq<char>, pat: Seq<char>, i: int) -> bool {
+    0 <= i && i + pat.len() <= s.len() && s.subrange(i, i + pat.len()) == pat
+}
+
+spec fn contains(s: Seq<char>, pat: Seq<char>) -> bool {
+    exists|i: int| contains_at(s, pat, i)
+}
+
+/// first n pieces joined by nl
+spec fn join_upto(p: Seq<Seq<char>>, nl: Seq<char>, n: int) -> Seq<char>
+    decreases n,
+{
+    if n <= 0 { Seq::empty() } else if n == 1 { p[0] } else { join_upto(p, nl, n - 1) + nl + p[n - 1] }
+}
+
+/// first n pieces, each blank-trimmed, joined by nl
+spec fn join_trim_upto(p: Seq<Seq<char>>, nl: Seq<char>, n: int) -> Seq<char>
+    decreases n,
+{
+    if n <= 0 { Seq::empty() } else if n == 1 { trim_blank(p[0]) } else { join_trim_upto(p, nl, n - 1) + nl + trim_blank(p[n - 1]) }
+}
+
+/// p are the lines of s: joined by nl they give s back, and no line contains nl
+spec fn is_split(p: Seq<Seq<char>>, s: Seq<char>, nl: Seq<char>) -> bool {
+    p.len() >= 1 && join_upto(p, nl, p.len() as int) == s && forall|i: int| 0 <= i < p.len() ==> !contains(#[trigger] p[i], nl)
+}
+
+/// strip_tw as a defined relation: r is s with the trailing ' ' / '\t' of every line (and nothing else) removed
+spec fn is_strip_tw(r: Seq<char>, s: Seq<char>, nl: Seq<char>) -> bool {
+    exists|p: Seq<Seq<char>>| #[trigger] is_split(p, s, nl) && r == join_trim_upto(p, nl, p.len() as int)
+}
+
+spec fn pieces_of(v: Seq<(usize, &str)>) -> Seq<Seq<char>> {
+    Seq::new(v.len(), |k: int| v[k].1@)
+}
+
+// O10: s.split(newline).enumerate()   (the iterator is collected; element k is (k, k-th piece))
+#[verifier::external_body]
+fn vp_split_enumerate<'a>(s: &'a str, newline: &str) -> (r: Vec<(usize, &'a str)>)
+    ensures
+        is_split(pieces_of(r@), s@, newline@),
+        forall|k: int| 0 <= k < r@.len() ==> (#[trigger] r@[k]).0 == k,
+{
+    s.split(newline).enumerate().collect()
+}
+
+// O11: line.trim_end_matches([' ', '\t'])
+#[verifier::external_body]
+fn vp_trim_end_blank<'a>(line: &'a str) -> (r: &'a str)
+    ensures r@ == trim_blank(line@),
+{
+    line.trim_end_matches([' ', '\t'])
+}
+
+pub assume_specification[ String::with_capacity ](n: usize) -> (r: String)
+    ensures r@ == Seq::<char>::empty(),
+;
+
+/// s with every ' ' and '\t' deleted
+spec fn unblank(s: Seq<char>) -> Seq<char>
+    decreases s.len(),
+{
+    if s.len() == 0 { Seq::empty() } else { unblank(s.drop_last()) + (if is_blank(s.last()) { Seq::<char>::empty() } else { seq![s.last()] }) }
+}
+
+proof fn lemma_unblank_add(a: Seq<char>, b: Seq<char>)
+    ensures unblank(a + b) == unblank(a) + unblank(b),
+    decreases b.len(),
+{
+    if b.len() == 0 {
+        assert(a + b =~= a);
+        assert(unblank(a) + unblank(b) =~= unblank(a));
+    } else {
+        assert((a + b).drop_last() =~= a + b.drop_last());
+        lemma_unblank_add(a, b.drop_last());
+        let t = if is_blank(b.last()) { Seq::<char>::empty() } else { seq![b.last()] };
+        assert((unblank(a) + unblank(b.drop_last())) + t =~= unblank(a) + (unblank(b.drop_last()) + t));
+    }
+}
+
+proof fn lemma_trim_blank(s: Seq<char>)
+    ensures unblank(trim_blank(s)) == unblank(s), trim_blank(s).len() <= s.len(),
+    decreases s.len(),
+{
+    if s.len() > 0 && is_blank(s.last()) {
+        lemma_trim_blank(s.drop_last());
+        assert(unblank(s.drop_last()) + Seq::<char>::empty() =~= unblank(s.drop_last()));
+    }
+}
+
+proof fn lemma_join_content(p: Seq<Seq<char>>, nl: Seq<char>, n: int)
+    requires 0 <= n <= p.len(),
+    ensures
+        unblank(join_trim_upto(p, nl, n)) == unblank(join_upto(p, nl, n)),
+        join_trim_upto(p, nl, n).len() <= join_upto(p, nl, n).len(),
+    decreases n,
+{
+    if n == 1 {
+        lemma_trim_blank(p[0]);
+    } else if n > 1 {
+        lemma_join_content(p, nl, n - 1);
+        lemma_trim_blank(p[n - 1]);
+        lemma_unblank_add(join_trim_upto(p, nl, n - 1) + nl, trim_blank(p[n - 1]));
+        lemma_unblank_add(join_trim_upto(p, nl, n - 1), nl);
+        lemma_unblank_add(join_upto(p, nl, n - 1) + nl, p[n - 1]);
+        lemma_unblank_add(join_upto(p, nl, n - 1), nl);
+    }
+}
+
+/// C28 content clause for the strip pass: no non-blank character is lost, added or reordered, and nothing grows
+proof fn lemma_strip_content(r: Seq<char>, s: Seq<char>, nl: Seq<char>)
+    requires is_strip_tw(r, s, nl),
+    ensures unblank(r) == unblank(s), r.len() <= s.len(),
+{
+    let p = choose|p: Seq<Seq<char>>| #[trigger] is_split(p, s, nl) && r == join_trim_upto(p, nl, p.len() as int);
+    lemma_join_content(p, nl, p.len() as int);
+}
+
+/// the returned text has exactly the non-blank content of the unstripped output the anchors are stated for
+proof fn lemma_rendered_text(r: Rendered, o: RenderOpts)
+    requires rendered_ok(r, o),
+    ensures exists|raw: Seq<char>, offs: Seq<nat>| #![trigger vp_witness(raw, offs)]
+        vp_witness(raw, offs) && anchors_hold(raw, offs, r.anchors@) && unblank(r.text@) == unblank(raw) && r.text@.len() <= raw.len(),
+{
+    let (raw, offs) = choose|raw: Seq<char>, offs: Seq<nat>| #![trigger vp_witness(raw, offs)]
+        vp_witness(raw, offs) && anchors_hold(raw, offs, r.anchors@) && (if o.strip_trailing_whitespace { is_strip_tw(r.text@, raw, o.newline@) } else { r.text@ == raw });
+    if o.strip_trailing_whitespace {
+        lemma_strip_content(r.text@, raw, o.newline@);
+    }
+    assert(vp_witness(raw, offs));
 }
